@@ -23,7 +23,7 @@ for i in range(1, 21):
     try:
         e = json.loads((V / "evidence" / f"{pid}.json").read_text())
         c = e.get("coverage", {})
-        ev = f"{e.get('tier')}, {c.get('evaluations')}, {c.get('distinct_nontrivial', c.get('distinct_non_trivial', '?'))}, {e.get('duration_s', e.get('seconds', '?'))}"
+        ev = f"{e.get('tier')}, {c.get('evaluations')}, {c.get('distinct_nontrivial', c.get('distinct_non_trivial', '?'))}, {e.get('wall_s', '?')}"
     except Exception:
         pass
     print(f"| {pid} | {n} | {ev} | {part.replace('|', '/')} |")
